@@ -7,7 +7,7 @@ from ..runner import Case, Property
 class C19(Property):
     id = "C19"
     lean_module = "RosuModel.Props.C19Full"   # imports Props/C19Curve.lean (→ Props/C19Lipschitz.lean, Props/C19.lean, Props/C16Surplus.lean) and Props/C19Ieee.lean; namespace Rosu.C19
-    theorem_modules = ['RosuModel.Props.C19Curve', 'RosuModel.Props.C19Ieee', 'RosuModel.Props.C19IeeePos']   # files whose top-level theorems are all audited
+    theorem_modules = ['RosuModel.Props.C19Curve', 'RosuModel.Props.C19Ieee', 'RosuModel.Props.C19IeeePos', 'RosuModel.Props.C19IeeeBound']   # files whose top-level theorems are all audited
     namespace = "Rosu.C19"
     design_ref = "5.19"
     level_text = (
